@@ -75,11 +75,16 @@ structure MServer where
   /-- the kernel's answers to the next `write()` calls on ANY server-side socket (the harness has one queue) -/
   wq : List WAns := []
   resetIds : Bool := false          -- the cabinet as found (counterexample only)
+  /-- clients that have connected but were not accepted yet: `TcpAcceptor::stop()` only disables the read event of the
+  listening socket, the kernel keeps completing connections into the listen backlog (FIFO); `start()` enables the event again
+  and every following loop pass accepts one; `cleanup()` closes the listening socket — the queued connections are reset -/
+  pending : Nat := 0
 deriving Repr
 
 /-- what happens on the connections of one server -/
 inductive MOp
   | conn                          -- a client connects and is accepted
+  | connq                         -- a client connects while the listening socket is open but not watched (server stopped / not started yet)
   | on (c : Nat) (op : SrvOp)     -- an event of connection c (segment, handler completion, peer close, …)
   | stop (cleanup : Bool)         -- `Server::stop()` / `cleanup()` outside any handler
   | start                         -- `Server::start()` again
@@ -117,12 +122,24 @@ def sync (m : MServer) (c : Nat) : MServer :=
 /-- `TcpServer::stop()`: every connection is disconnected, the cabinet cleared -/
 def stopAll (m : MServer) (cleanup : Bool) : MServer :=
   { m with clients := m.clients.map (fun cl => { cl with srv := cl.srv.sstop }),
-           cab := m.cab.clear m.resetIds, state := if cleanup then .none else .inited }
+           cab := m.cab.clear m.resetIds, state := if cleanup then .none else .inited,
+           pending := if cleanup then 0 else m.pending }
 
-/-- `Server::Impl::stop()` (only when running) / `cleanup()` (unless already cleaned up) -/
+/-- `Server::Impl::stop()` (only when running) / `cleanup()` (unless already cleaned up; the listening socket is closed, whoever
+waits in its backlog is reset) -/
 def stopOutside (m : MServer) (cleanup : Bool) : MServer :=
   if m.state = .running then m.stopAll cleanup
-  else if cleanup then { m with state := .none } else m
+  else if cleanup then { m with state := .none, pending := 0 } else m
+
+/-- `TcpServer::onTcpConnected`: the accepted connection gets a cabinet cell and a fresh record -/
+def accept (m : MServer) : MServer :=
+  let (cab, t) := m.cab.alloc m.clients.length
+  { m with clients := m.clients ++ [⟨t, {}⟩], cab := cab }
+
+/-- the loop passes after `start()`: one `accept()` per pass until the backlog is empty, in the order the clients connected -/
+def acceptN : Nat → MServer → MServer
+  | 0, m => m
+  | n + 1, m => acceptN n m.accept
 
 /-- did a handler run by this segment call `server.stop()` (some false) / `server.cleanup()` (some true)? -/
 def segStops (s : Server) (bytes : Bytes) : Option Bool :=
@@ -135,10 +152,11 @@ def dropCtx (s : Server) (i : Nat) : Server := { s with outstanding := s.outstan
 
 def step (m : MServer) : MOp → MServer
   | .conn =>
-    if m.poisoned || m.state != .running then m else
-    let (cab, t) := m.cab.alloc m.clients.length
-    { m with clients := m.clients ++ [⟨t, {}⟩], cab := cab }
-  | .start => if m.poisoned then m else if m.state = .inited then { m with state := .running } else m
+    if m.poisoned || m.state != .running then m else m.accept
+  | .connq => if m.poisoned then m else if m.state = .inited then { m with pending := m.pending + 1 } else m
+  | .start =>
+    if m.poisoned then m else
+    if m.state = .inited then acceptN m.pending { m with state := .running, pending := 0 } else m
   | .stop cl => if m.poisoned then m else m.stopOutside cl
   | .wq q => if m.poisoned then m else { m with wq := m.wq ++ q }
   | .on c op =>
@@ -157,6 +175,15 @@ def step (m : MServer) : MOp → MServer
         | some d =>
           if d = c then (m.withWq c (·.step (.done i r))).sync c
           else ((m.setSrv c (dropCtx cl.srv i)).withWq d (fun s => (s.commitW i r.render).quiesce)).sync d
+      | .cclose (some (i, r)) cf =>
+        -- a handler completes request i in the loop pass in which the peer closes its socket (cf = the close comes first):
+        -- the commit goes through the cabinet exactly like `.done`
+        if !cl.srv.outstanding.contains i then m else
+        match m.target c with
+        | none => ((m.setSrv c (dropCtx cl.srv i)).withWq c (·.step (.cclose none cf))).sync c
+        | some d =>
+          if d = c then (m.withWq c (·.step (.cclose (some (i, r)) cf))).sync c
+          else ((((m.setSrv c (dropCtx cl.srv i)).withWq d (fun s => s.commitW i r.render)).sync d).withWq c (·.step (.cclose none cf))).sync c
       | .seg b =>
         let m1 := (m.withWq c (·.step (.seg b))).sync c
         match segStops cl.srv b with
